@@ -152,9 +152,11 @@ Definition step (p : policy) (s : state) (l : label) : option (state * obs) :=
       if rx_alive s && (spurious p || (rx_woken s && negb (rx_done s))) then
         match buf s with
         | v :: b' =>
-            (* shared.wake_sender(): pop one waker *)
-            let '(ws, sw') := match sw s with t :: r => ([WSend t], r) | [] => ([], []) end in
-            Some (mkState b' (cap s) sw' (rw s) (rx s) true (rx_done s) (ntasks s)
+            (* shared.wake_sender(), since /repo commit 904d17adb85 = wake_all_senders():
+               drains send_wakers from the front (oldest first) and wakes every entry.
+               (Before that commit it popped ONE waker: see ModelMpscOld.v.) *)
+            let ws := map WSend (rev (sw s)) in
+            Some (mkState b' (cap s) [] (rw s) (rx s) true (rx_done s) (ntasks s)
                     (wake_tasks ws (tasks s)) (sent s) (recvd s ++ [v]),
                   ORecv (RSome v) ws)
         | [] =>
